@@ -4,6 +4,7 @@ import (
 	"context"
 	"errors"
 	"fmt"
+	"io"
 	"net"
 	"runtime/trace"
 	"strings"
@@ -386,10 +387,11 @@ const (
 	opQuit
 	opAuth
 	opMailNull // the null reverse-path (bounces)
+	opDataCut  // the connection is lost in the middle of the message data
 	nOps
 )
 
-var c03OpNames = []string{"MAIL", "MAIL(upper)", "MAIL(bad)", "RCPT(t0)", "RCPT(t1)", "RCPT(both)", "RCPT(rejected)", "RCPT(bad)", "DATA", "DATA(bad header)", "DATA(loop)", "RSET", "QUIT", "AUTH", "MAIL(null)"}
+var c03OpNames = []string{"MAIL", "MAIL(upper)", "MAIL(bad)", "RCPT(t0)", "RCPT(t1)", "RCPT(both)", "RCPT(rejected)", "RCPT(bad)", "DATA", "DATA(bad header)", "DATA(loop)", "RSET", "QUIT", "AUTH", "MAIL(null)", "DATA(connection lost)"}
 
 const c03Msg = "From: <a@src.example>\r\nSubject: c03\r\n\r\nbody\r\n"
 
@@ -439,7 +441,7 @@ func c03Setup(cfg c03Cfg) *Endpoint {
 		name:                "smtp",
 		pipeline:            pipeline,
 		limits:              &limits.Group{},
-		buffer:              buffer.BufferInMemory,
+		buffer:              autoBufferMode(256, ""), // the default buffering mode (RAM limit above every message of the harness)
 		authAlwaysRequired:  cfg.authReq,
 		lmtp:                cfg.lmtp,
 		deferServerReject:   cfg.deferred,
@@ -547,6 +549,25 @@ func c03Step(s *Session, m *c03Mirror, lmtp bool, op int) c03StepResult {
 		s.Reset()
 		m.from, m.accepted = false, nil
 		return c03StepResult{err: ret, statuses: st}
+	case opDataCut:
+		if !m.from || len(m.accepted) == 0 {
+			return c03StepResult{skipped: true}
+		}
+		// contract of go-smtp's data reader: when the connection ends before the
+		// end-of-data mark, Read returns what arrived and then io.ErrUnexpectedEOF
+		cut := io.MultiReader(strings.NewReader(c03Msg[:len(c03Msg)-3]), c03ErrReader{io.ErrUnexpectedEOF})
+		st := &c03Statuses{set: map[string][]error{}}
+		var ret error
+		if lmtp {
+			ret = s.LMTPData(cut, st)
+		} else {
+			ret = s.Data(cut)
+		}
+		// no reply reaches the client; the deferred reset and the end of the connection follow
+		s.Reset()
+		s.Logout()
+		m.from, m.accepted, m.open = false, nil, false
+		return c03StepResult{err: ret, statuses: st}
 	case opRset:
 		s.Reset()
 		m.from, m.accepted = false, nil
@@ -562,6 +583,10 @@ func c03Step(s *Session, m *c03Mirror, lmtp bool, op int) c03StepResult {
 	}
 	return c03StepResult{}
 }
+
+type c03ErrReader struct{ err error }
+
+func (r c03ErrReader) Read([]byte) (int, error) { return 0, r.err }
 
 func c03NewSession(endp *Endpoint) *Session {
 	// NewSession without the go-smtp connection object
@@ -620,6 +645,11 @@ func harness_C03_session() {
 		if !authReq && op == opAuth {
 			verifStop()
 		}
+		// cut = 1: the connection may be lost in the middle of DATA (takes the
+		// place of the malformed-header DATA in the command alphabet)
+		if (op == opDataCut) != (verifParam("cut", 0) == 1 && (op == opDataCut || op == opDataBadHeader)) {
+			verifStop()
+		}
 		hist = append(hist, c03OpNames[op])
 		preOpen := len(c03.all)
 		wasAuthed := m.authed
@@ -666,6 +696,20 @@ func harness_C03_session() {
 				verifLog("trace", strings.Join(hist, " "), "reply", r.err.Error())
 				verifFail("C03.recipient-refused-with-a-stale-reply")
 			}
+		case opDataCut:
+			// the message never arrived completely: whatever the session
+			// returned, nothing of it may have been committed
+			committedNow := 0
+			for _, d := range c03.all {
+				if d.state == dCommitted {
+					committedNow++
+				}
+			}
+			if committedNow != committedBefore {
+				verifLog("trace", strings.Join(hist, " "))
+				verifFail("C03.message-cut-off-by-disconnect-committed")
+			}
+			verifCover("C03.data-cut")
 		case opData, opDataBadHeader, opDataLoop:
 			firedAtTxnStart = c03.fired
 			ret, statuses := r.err, r.statuses
